@@ -48,6 +48,10 @@ type Spec struct {
 	Post func(a *Agg)
 	// Env adds environment for children.
 	Env []string
+	// RaceSig optionally maps a raw race signature ("fnA|fnB", innermost
+	// repository functions of the two access stacks) to the signature that is
+	// reported (e.g. a root-cause family). Default: "race:"+raw.
+	RaceSig func(raw string) string
 }
 
 var registry = map[string]*Spec{}
